@@ -228,18 +228,21 @@ class Interp:
         self.edges = set()
         self.cur_fn = None
         self.loops = {}     # id(loop node) -> {tok: set(exit states)}
+        self.record = True
 
     def callee_outcome(self, callee, state, t):
         if state == "P":
             return "P"
         if state == "N":
-            self.edges.add((self.cur_fn, callee))
+            if self.record:
+                self.edges.add((self.cur_fn, callee))
             if callee in self.P and t in self.P[callee]:
                 return "P"
             if callee in self.N and t in self.N[callee]:
                 return "N"
             return "U"
-        self.edges.add((self.cur_fn, callee))
+        if self.record:
+            self.edges.add((self.cur_fn, callee))
         return "U"
 
     def seq(self, stmts, state, t):
@@ -328,7 +331,7 @@ class Interp:
                 rets |= r["return"]
                 for s2 in r["next"] | r["continue"]:
                     work.append("P" if s2 == "P" else "U")
-            if state == "N":
+            if state == "N" and not self.record:
                 self.loops.setdefault(id(s), {})[t] = set(exits)
             return {"next": exits, "return": rets}
         # other
@@ -361,6 +364,33 @@ class Interp:
                     changed = True
             if rounds > 50:
                 break
+        # per-loop exit behaviour, from a fresh "no progress yet" state for every token
+        self.record = False
+        self.loops = {}
+
+        def all_loops(stmts, acc):
+            for s in stmts:
+                if s.kind == "loop":
+                    acc.append(s)
+                    all_loops(s.body, acc)
+                elif s.kind == "match":
+                    for a in s.arms:
+                        all_loops(a.body, acc)
+                elif s.kind == "if":
+                    all_loops(s.then, acc)
+                    if s.els:
+                        all_loops(s.els, acc)
+        for f, body in self.fns.items():
+            self.cur_fn = f
+            acc = []
+            all_loops(body, acc)
+            for lp in acc:
+                for t in self.alphabet:
+                    saved = dict(self.loops.get(id(lp), {}))
+                    self.stmt(lp, "N", t)
+                    # nested loops get overwritten with the same values; keep this loop's entry
+                    _ = saved
+        self.record = True
         return rounds
 
     def ranks(self):
@@ -471,14 +501,17 @@ class Emitter:
         self.nloop += 1
         k = self.nloop
         o = "old(%s)" % r
-        rs = "%s.rstack()" % o
-        for v in opened:
-            rs += ".push(%s.0 as int)" % v
-        inv = ["%s.stepn(%s)" % (r, o), "%s.rstack() == %s" % (r, rs),
-               "%s.pos >= p_%d" % (r, k), "(%s.pos == p_%d ==> %s.current == c_%d)" % (r, k, r, k)]
+        B = self.bound()
+        inv = ["%s.stepb(%s, %s)" % (r, o, B)]
+        e = "%s.rstack()" % r
+        for v in reversed(opened):
+            inv.append("%s.len() > 0 && %s.last() == %s.0 && %s <= %s.0" % (e, e, v, B, v))
+            e += ".drop_last()"
+        inv.append("%s == %s.rstack()" % (e, o))
+        inv += ["%s.pos >= p_%d" % (r, k), "(%s.pos == p_%d ==> %s.current == c_%d)" % (r, k, r, k)]
         for v in closed:
             if uses_after(ix, self.f, s.i_kw, v):
-                inv.append("%s.mk(%s.0 as int) && top_of(%s.rstack()) < %s.0" % (r, v, r, v))
+                inv.append("%s.mk(%s.0 as int) && top_of(%s.rstack()) < %s.0 && %s <= %s.0" % (r, v, r, v, B, v))
         exits = self.interp.loops.get(id(s), {})
         P = {t for t in self.alphabet if exits.get(t) == {"P"}}
         N = {t for t in self.alphabet if exits.get(t) == {"N"}}
@@ -486,7 +519,7 @@ class Emitter:
         if P:
             ens.append("%s ==> %s.pos > p_%d" % (tokset("c_%d" % k, P, self.alphabet), r, k))
         if N:
-            ens.append("%s ==> %s.pos == p_%d" % (tokset("c_%d" % k, N, self.alphabet), r, k))
+            inv.append("%s ==> %s.pos == p_%d" % (tokset("c_%d" % k, N, self.alphabet), r, k))
         ind = " " * 12
         pre = "let ghost p_%d = %s.pos; let ghost c_%d = %s.current;\n%s" % (k, r, k, r, ind)
         self.ed.insert(st[s.i_kw].s, pre)
@@ -495,6 +528,13 @@ class Emitter:
             txt += "%s  ensures %s,\n" % (ind, (",\n%s    " % ind).join(ens))
         txt += "%s  decreases %s.rem()\n%s" % (ind, r, ind)
         self.ed.insert(st[s.i_brace].s, txt)
+        self.ed.insert(st[s.i_brace].e, "\n%sbroadcast use lemma_span_ok, lemma_mk_bound;" % ind)
+
+    def bound(self):
+        """Marks up to this bound stay valid throughout the function."""
+        if self.f.parent is not None:
+            return "(lhs0.0 as int)"
+        return "old(%s).nlen()" % self.recv
 
     def emit_spec(self, body, external=False):
         ix, st, f, r = self.ix, self.ix.st, self.f, self.recv
@@ -506,7 +546,9 @@ class Emitter:
         if f.parent is not None:
             req.append("%s.mk(lhs.0 as int)" % o)
             req.append("top_of(%s.rstack()) < lhs.0" % o)
-        ens = ["%s.step(%s)" % (fin, o)]
+            ens = ["%s.stepb(%s, lhs.0 as int)" % (fin, o), "%s.rstack() == %s.rstack()" % (fin, o)]
+        else:
+            ens = ["%s.step(%s)" % (fin, o)]
         if P:
             ens.append("%s ==> %s.pos > %s.pos" % (tokset("%s.current" % o, P, self.alphabet), fin, o))
         if N:
@@ -558,10 +600,12 @@ def annotate(ix, ed, report, skeleton_only=False):
             ed.insert(st[f.i_attr].s, "#[verifier::external_body] ")
             continue
         # body start: broadcast lemma for diagnostic spans; reveal where fields are written directly
-        start = "\n        proof { broadcast use lemma_span_ok; }\n"
         txt = ix.text(f.i_body, f.i_end)
+        start = "\n        broadcast use lemma_span_ok, lemma_mk_bound;\n"
+        if f.parent is not None:
+            start += "        let ghost lhs0 = lhs;\n"
         if re.search(r"\.\s*(error_since_advance|in_ordered_choice)\s*=[^=]", txt):
-            start = "\n        proof { broadcast use lemma_span_ok; reveal(Parser::twf); reveal(Parser::mk); }\n"
+            start += "        proof { reveal(Parser::twf); reveal(Parser::mk); }\n"
         ed.insert(st[f.i_body].e, start)
         closed0 = ["lhs"] if f.parent is not None else []
         em.walk(body, [], closed0)
